@@ -353,6 +353,12 @@ theorem roundtrip_SecretRow (ext : Ext) (r : SRow) (rest : Bytes) (h : ValidSRow
 the same number of externally parsed payloads as the schema of its kind tag -/
 theorem secret_arms_match_source : modelSecretArms = Generated.secretDecArms := by decide
 
+/-- the encoder side: every arm of `impl Encodable for Secret` writes what the schema of its
+kind says, in that order (so encoder and decoder walk the same line) -/
+theorem secret_enc_arms_match_source : modelSecretEncArms = Generated.secretEncArms := by decide
+
+theorem secret_meta_writes_match_source : fldsWrites metaSchema = Generated.secretMetaWrites := by decide
+
 theorem secret_meta_reads_match_source :
     fingerprint (fldsReads metaSchema) = Generated.secretMetaReads := by decide
 
